@@ -287,3 +287,8 @@ def st_derived(be, hiN):
 
 FACETS.append(Facet('np/derived-operands', f_derived, strategy=lambda t: st_derived('np', 4), examples={'quick': 1500, 'thorough': 60000}, shards={'quick': 2, 'thorough': 8}))
 FACETS.append(Facet('torch/derived-operands', f_derived, strategy=lambda t: st_derived('torch', 3), examples={'quick': 200, 'thorough': 8000}, shards={'quick': 1, 'thorough': 4}, backend='torch'))
+
+
+from checks import large as _large
+FACETS.append(Facet('np/large-N', _large.f_algebra_large, strategy=lambda t: _large.st_algebra('np', ['rotate']), examples={'quick': 60, 'thorough': 3000}))
+FACETS.append(Facet('torch/large-N', _large.f_algebra_large, strategy=lambda t: _large.st_algebra('torch', ['rotate']), examples={'quick': 30, 'thorough': 1000}, backend='torch'))
